@@ -57,6 +57,10 @@ struct ExecOpts {
     bool destroyLinked = true; // call destroyLinkedMultiPolygon after success
     // called between cellsToLinkedMultiPolygon's return and destroy; used by
     // the C16 oracle to audit the heap at that instant
+    // value of errno on entry to the library call.  The C library contract lets errno hold anything on entry to
+    // a function, so a result that depends on it depends on the calls made earlier on the same thread
+    // (ambient-state fault injection; 0 for every reference execution)
+    int entryErrno = 0;
     void (*afterLinked)(int64_t rc, void *user) = nullptr;
     void *user = nullptr;
 };
@@ -66,6 +70,8 @@ struct ExecOpts {
 // REF.  Never throws; crashes are contained and reported in Result.
 Result execOp(const H3Api &api, const Op &op, const ExecOpts &opts);
 
+// adversarial errno value on entry, chosen by a hash (0 in one case out of four)
+int entryErrnoFor(uint64_t h);
 bool fnAllocates(int fn);     // one of the C17 functions
 bool fnIsC17(int fn);
 const char *h3ErrorName(int64_t rc);
